@@ -103,6 +103,21 @@ def alphabet(framing, tier):
 
 
 EMPTY = ('empty-datagram', b'', None)
+import socket as _socket
+TIMEOUT = ('idle-timeout', _socket.timeout('timed out'), None)
+
+
+def embedded(framing):
+    """a valid Write Multiple Registers request whose register data is itself a well-formed frame (a write of
+    0xDEAD to register 5): the inner bytes are DATA and must never be executed as a request"""
+    inner = F(framing, pdu.encode(dict(kind='req', fc=6, address=5, value=0xDEAD)), tid=0x0099)
+    if len(inner) % 2:
+        inner += b'\x00'
+    regs = [int.from_bytes(inner[i:i + 2], 'big') for i in range(0, len(inner), 2)]
+    m = dict(kind='req', fc=16, address=0, count=len(regs), byte_count=2 * len(regs), registers=regs)
+    fr = F(framing, pdu.encode(m), tid=0x0033)
+    at = fr.find(inner)
+    return ('write-with-embedded-frame', fr, m, at if at > 0 else len(fr) // 2)
 
 
 def expected_stores(writes):
@@ -121,11 +136,28 @@ def stream_writes(framing, chunks, kind):
     """the well-formed, integrity-valid write requests contained in the input: every contiguous window
     that the reference ADU parser accepts as a frame and whose PDU is a conformant write (ordered by
     position).  On TCP a truncated frame completed by the bytes that follow it IS such a window."""
-    streams = [b''.join(chunks)] if kind == 'stream' else list(chunks)
+    streams = [b''.join(c for c in chunks if isinstance(c, (bytes, bytearray)))] if kind == 'stream' else [c for c in chunks if isinstance(c, (bytes, bytearray))]
     out = []
     for st in streams:
         found = []
-        for s0, e0, p in adu.valid_frames_in(framing, st):
+        windows = adu.valid_frames_in(framing, st)
+        if framing == 'tcp' and kind == 'stream':
+            # a TCP receiver never resynchronises inside a frame: frame boundaries follow from the length fields,
+            # read one after the other from the start of the connection.  Only when that walk meets a header it
+            # cannot accept (length < 2) is the rest of the stream judged window by window.
+            seq, pos = [], 0
+            while pos + 7 <= len(st):
+                ln = int.from_bytes(st[pos + 4:pos + 6], 'big')
+                if ln < 2:
+                    seq.extend(w for w in windows if w[0] >= pos)
+                    break
+                end = pos + 6 + ln
+                if end > len(st):
+                    break
+                seq.extend(w for w in windows if w[0] == pos and w[1] == end)
+                pos = end
+            windows = seq
+        for s0, e0, p in windows:
             try:
                 m = pdu.decode('req', p['pdu'])
             except (pdu.Malformed, Exception):   # noqa
@@ -146,7 +178,7 @@ def run_one(acc, front, framing, names, chunks, writes, record=True):
     conn = srv.open()
     kind = servers.FRONTS[front][0]
     conn.run_script(chunks)
-    wit = dict(front=front, framing=framing, tokens=list(names), chunks=[c.hex() for c in chunks])
+    wit = dict(front=front, framing=framing, tokens=list(names), chunks=[c.hex() if isinstance(c, (bytes, bytearray)) else 'timeout' for c in chunks])
     cfgname = '%s/%s' % (front, framing)
     last = names[-1]
     if last.startswith(('truncated-', 'byte-')):
@@ -200,6 +232,12 @@ def shard(args):
     if kind == 'dgram':
         alpha = alpha + [EMPTY]          # a zero-length datagram is a legal thing for a peer to send
     seqs = [(a,) for a in alpha] + [(a, b) for a in alpha for b in alpha]
+    emb = embedded(framing)
+    extra = []
+    if framing in ('tcp', 'ascii', 'binary') or True:
+        extra.append(((emb[:3],), emb[3]))
+        if front in ('sync-tcp', 'sync-serial'):
+            extra.append(((TIMEOUT, emb[:3]), emb[3]))
     if tier == 'thorough':
         seqs += [(a, b, c) for a in small for b in small for c in small]
     n = 0
@@ -221,6 +259,20 @@ def shard(args):
         else:
             run_one(acc, front, framing, names, whole, writes)       # one token per datagram
             n += 1
+    if part == 0:
+        for seq, cut in extra:
+            names = [a[0] for a in seq]
+            items = [a[1] for a in seq]
+            frame = items[-1]
+            if kind == 'stream':
+                run_one(acc, front, framing, names, items[:-1] + [frame], [])
+                run_one(acc, front, framing, names, items[:-1] + [frame[:cut], frame[cut:]], [])     # cut exactly where the embedded frame starts
+                for c2 in (cut - 1, cut + 1, cut + 7):
+                    run_one(acc, front, framing, names, items[:-1] + [frame[:c2], frame[c2:]], [])
+                n += 5
+            else:
+                run_one(acc, front, framing, names, [frame], [])
+                n += 1
     acc.add('nontrivial', (front, framing))
     acc.inc('hostile_sequences', n)
     if part == 0:
@@ -249,7 +301,5 @@ def run(tier, seed):
 
 def replay(w):
     acc = Acc()
-    alpha = dict((a[0], a) for a in alphabet(w['framing'], 'thorough') + [EMPTY])
-    writes = [alpha[n][2] for n in w['tokens'] if alpha[n][2] is not None]
-    p = run_one(acc, w['front'], w['framing'], w['tokens'], [bytes.fromhex(c) for c in w['chunks']], writes)
+    p = run_one(acc, w['front'], w['framing'], w['tokens'], [bytes.fromhex(c) if c != 'timeout' else _socket.timeout('timed out') for c in w['chunks']], [])
     return bool(p), '\n'.join('%s: %s' % (v['sig'], v['msg']) for v in acc.violations) or 'no violation'
